@@ -58,6 +58,13 @@ pub fn main(_args: &[String]) {
         nulls.push(attempt((t.taddr)(), |inj| inj.when_called((t.target)()).will_execute_raw(unsafe { FuncPtr::new(std::ptr::null(), (t.tname)()) })));
         bools.push(attempt((t.taddr)(), |inj| inj.when_called((t.target)()).will_return_boolean(true)));
     }
+    // the unchecked macros carry an empty signature: forcing a boolean on such a target must be refused as well
+    let mut ub = String::new();
+    for t in FAMILY { ub.push(attempt((t.taddr)(), |inj| unsafe { inj.when_called_unchecked((t.unchecked_target)()).will_return_boolean(true) })); }
+    let mut ub2 = String::new();
+    for t in FAMILY { ub2.push(attempt((t.taddr)(), |inj| inj.when_called((t.unchecked_target)()).will_return_boolean(true))); }
+    println!("BOOLGATE_UNCHECKED {ub}");
+    println!("BOOLGATE_UNCHECKED_SAFEFORM {ub2}");
     println!("NULLFAKE {nulls}");
     println!("BOOLGATE {bools}");
     let nt = catch_unwind(|| unsafe { FuncPtr::new(std::ptr::null(), "fn()") });
